@@ -475,6 +475,33 @@ def account(ctx, exe, cases, nsamples=6):
             ctx.sample({"case": c, "implementation": o}, cap=24)
 
 
+# the files the properties C10 / C11 are anchored in (unix_str.rs, strlen.rs and whatever module joins them), and the
+# crate around them (scanned for target features only: a SIMD helper module may live next to, not in, the anchored files)
+ANCHORED = ["rusl/src/string"]
+WIDER = ["rusl/src"]
+_model_cache = {}
+
+
+def variants(ctx):
+    """build variants of the harness beyond the dev and release profiles (C.build_variants): the configuration
+    predicates of the anchored files decide; `-C target-cpu=native` (release) is a standing one (a cold build of the
+    harness is ~3 s, the three streams on it ~5 s with the model's answers reused)"""
+    if getattr(ctx, "_c10_variants", None) is None:
+        _, vs = C.build_variants(ctx, ANCHORED, native_quick=True, wider=WIDER)
+        built = []
+        for v in vs:
+            exe, err, how = C.variant_build(ctx, "c10", v)
+            if exe is None:
+                ctx.broken.append({"harness_build_failed": err, "variant": v["tag"]})
+                ctx.violation({"kind": "harness-build-failed", "variant": v["tag"]},
+                              {"error": err, "build_variant": {"tag": v["tag"], "RUSTFLAGS": v["rustflags"]}, "how_to_replay": how,
+                               "note": "the same source does not build in this configuration"}, no_input=True)
+                continue
+            built.append((dict(v, how=how), exe))
+        ctx._c10_variants = built
+    return ctx._c10_variants
+
+
 def run_streams(ctx, name, cases, judge_fn, sig_fn, release_too=True):
     drv = [C.driver_path("drv_c10")]
     ok = True
@@ -484,9 +511,13 @@ def run_streams(ctx, name, cases, judge_fn, sig_fn, release_too=True):
             return False
         mode = "release" if release else "debug"
         lines = ["mode " + mode] + cases
-        ok = C.correspond(ctx, "%s-%s" % (name, mode), lines, [exe], drv, judge_fn, sig_fn) and ok
+        ok = C.correspond(ctx, "%s-%s" % (name, mode), lines, [exe], drv, judge_fn, sig_fn, model_cache=_model_cache) and ok
         if not release:
             account(ctx, exe, lines)
+    # the same lines, the same oracle, the same model answers — on every other way the source is built here
+    for v, exe in variants(ctx):
+        lines = ["mode " + ("release" if v["release"] else "debug")] + cases
+        ok = C.correspond(ctx, "%s-%s" % (name, v["tag"]), lines, [exe], drv, judge_fn, sig_fn, variant=v, model_cache=_model_cache) and ok
     return ok
 
 
@@ -527,10 +558,11 @@ def run(ctx):
                 "SHAPE of fmt::Arguments around 22 format strings that are LITERALS compiled into the harness (empty, relative, absolute, "
                 "trailing / double separators, embedded / trailing / lone NUL, escaped braces, 255 and 300 bytes): literal only "
                 "(Arguments::as_str() = Some), literal before / behind / around one `{}` argument, argument only, two arguments, arguments "
-                "incl. NULs and > NAME_MAX, bases well-formed and not; distinct_nontrivial = distinct (operation, outcome kind, operand lengths capped at 3 or flagged >= 255, "
+                "incl. NULs and > NAME_MAX, bases well-formed and not; EVERY stream runs on the dev and release profiles and on each build variant of "
+                "coverage.cfg_dimensions.variants (standing: -C target-cpu=native; one per target feature / mixed debug-assertion setting the anchored files mention); distinct_nontrivial = distinct (operation, outcome kind, operand lengths capped at 3 or flagged >= 255, "
                 "operand ends in NUL, placed) classes observed on the implementation")
     ctx.assumptions += [
-        "Model/UnixStr.lean describes rusl/src/string/unix_str.rs + strlen.rs::buf_strlen (checked by this run's correspondence, debug and release builds, raw as_slice() bytes)",
+        "Model/UnixStr.lean describes rusl/src/string/unix_str.rs + strlen.rs::buf_strlen (checked by this run's correspondence: debug and release builds and every build variant of coverage.cfg_dimensions.variants, raw as_slice() bytes)",
         "alloc::fmt::format(args) yields exactly the concatenated argument bytes (the model takes the formatted bytes as input; format shapes varied by the harness)",
         "the SHAPE of a fmt::Arguments (source-level literal format string, where Arguments::as_str() is Some, vs. run-time arguments) is not an "
         "input of the model (fromFormatArgs / pathJoinFmtArgs = the call on the rendering; theorem fmt_shape_independent); that the real "
